@@ -65,6 +65,10 @@ REG = {
                 text="Generated LIB1/APP/LIB2 triples; changes to used interfaces must be reported (removals as incompatible), changes confined to unused interfaces must leave the verdict of APP LIB1 LIB1, weak mode must report a layout mismatch of a type only a used function reaches; one recorded defect (application without variable references) is a known finding; exploration only.", note=_T1),
     "C30": dict(engine="progfuzz", technique="property-based testing (generated package directories / tar archives with unchanged, changed, removed and added libraries; differential against abidiff per pair + status invariants)",
                 text="Generated package pairs; removed binary => change+incompatible bits, per-binary sections agree with abidiff on the same pair, exit 0 <=> nothing removed and all pairs clean; exploration only (no rpm/deb tooling in the sandbox).", note=_T1),
+    "C35": dict(engine="progfuzz", technique="property-based testing / fuzzing of the tools with compiler-generated inputs under AddressSanitizer + UndefinedBehaviorSanitizer",
+                text="The program-pair generator drives abidw, abilint, abidiff (ELF and ABIXML operands, three report modes), abidw --abidiff and abipkgdiff rebuilt with -fsanitize=address,undefined; any sanitizer report or fatal signal is a violation; exploration only (system libraries are not instrumented).", note=_T1 + "; clang ASan/UBSan runtime"),
+    "C37": dict(engine="progfuzz", technique="property-based testing (generated shared objects x linker x hash style; differential against readelf for present symbols, constructed colliding absent names from re-implemented SysV/GNU hash functions)",
+                text="Generated DSOs with 1-400 symbols, bfd/lld, sysv/gnu/both hash styles; abisym must find every defined dynamic symbol with readelf's version and no absent name that shares buckets and passes the bloom filter; exploration only.", note=_T1),
     "C38": dict(engine="apicheck", technique="exhaustive small-scope enumeration + rapidcheck against a reference LCS",
                 text="All pairs of sequences up to length 6 (quick) / 8 (thorough) over 3 letters are enumerated (exhaustive for that scope) and random long sequences with non-trivial predicates are sampled; oracle is an independent O(nm) LCS.", note=_T2),
     "C39": dict(engine="apicheck", technique="rapidcheck round-trip (config->text->config and text->config->text->config)",
@@ -73,6 +77,8 @@ REG = {
                 text="Random well-formed names and strings compared with one-line reference definitions; exploration only.", note=_T2),
     "C42": dict(engine="apicheck", technique="rapidcheck model-based test (std::string as reference model)",
                 text="Random string multisets interned in one pool; every pairwise operator compared with std::string; exploration only.", note=_T2),
+    "C40": dict(engine="progfuzz", technique="property-based testing (cross-document relation: equal (kind, name) => equal hash id unless collision probing is evidenced)",
+                text="Generated library pairs plus an unrelated third library, abidw --type-id-style hash; ids of named types occurring once in two documents must agree; exploration only.", note=_T1),
     "C43": dict(engine="progfuzz", technique="property-based testing (metamorphic: same sources, same compiler and codegen flags, two debug-info configurations => abidiff silent in both orders)",
                 text="Generated programs compiled under pairs of debug-info configurations (DWARF 4/5, column info, strict DWARF, type units); type-unit cases are a recorded known finding kept to 15% of the cases; exploration only.", note=_T1),
 }
